@@ -20,6 +20,7 @@ from ..corr import GEN, HEADER, Case, run_coq_file, subvalues
 from ..lang import N, P, Some, coq, freeze, from_json, to_json
 
 ROOT = os.path.dirname(os.path.dirname(os.path.dirname(os.path.abspath(__file__))))
+from ..rundir import GEN as _GEN  # noqa: E402
 ASSUMPTIONS = [
     "length / count parameters are non-negative (the documented domain of MinLength, MaxItems, ...)",
     "record labels with colliding str() forms, zero-field n-tuples and NaN Decimal choices are excluded from the theorem (cfg_ok) and recorded as known findings with their witnesses",
@@ -37,7 +38,7 @@ TRUSTED_EXTRA.append("fact translator harness/facts/effects.py (python ast) rege
 def regenerate_facts():
     from ..facts import effects
     try:
-        d = effects.emit(os.environ.get("KV_REPO", "/repo"), os.path.join(ROOT, "coq", "generated", "Facts_effects_C10.v"))
+        d = effects.emit(os.environ.get("KV_REPO", "/repo"), os.path.join(_GEN, "Facts_effects_C10.v"))
         if d["bad"]:
             return True, "stores to caller-owned state: " + "; ".join(effects.key(w) for w in d["bad"][:4])
         return True, ""
@@ -56,7 +57,10 @@ def cross_pool(kind: str, rng: random.Random) -> list:
     if rng.random() < 0.7:
         return G.KIND_POOL[kind]
     return rng.choice([G.STRS, G.INTS, G.FLOATS, G.BYTESS, G.DECS + G.DECS_HOSTILE, G.DATES, G.DTS, G.UUIDS,
-                       [G.NONE, G.TRUE, G.FALSE], [("VTuple", [G.I(1), G.S("x")])],
+                       [G.NONE, G.TRUE, G.FALSE],
+                       # tuple parameters: described element by element, at any depth
+                       [("VTuple", [G.I(1), G.S("x")]), ("VTuple", [G.D15, G.DATE1]), ("VTuple", [G.B(b"a"), ("VTuple", [G.I(1), G.UUID1])]),
+                        ("VTuple", [G.DT1, G.F1]), ("VTuple", [G.NAN]), ("VTuple", [("VTuple", [G.D1])]), ("VTuple", [])],
                        [("VSet", [G.I(1)]), G.OBJ, G.STRSUB, G.INTSUB, G.BIGINT, G.SURR]])
 
 
